@@ -315,7 +315,10 @@ impl<'a> Gen<'a> {
                             parts.push(Expr::Lit(Lit::Str(self.rng.pick(&STR_POOL).to_string())));
                         } else {
                             let t = *self.rng.pick(&[Ty::Int, Ty::Small, Ty::Str, Ty::Bool, Ty::Null]);
-                            parts.push(self.expr(t, d));
+                            // placeholders hold small expressions (no nested placeholders / maps)
+                            let e = self.expr(t, self.max_depth.saturating_sub(1).max(d));
+                            let e = if e.any(&|x| matches!(x, Expr::Interp(_) | Expr::Map(_))) { self.literal(t) } else { e };
+                            parts.push(e);
                         }
                     }
                     Expr::Interp(parts)
